@@ -765,6 +765,16 @@ class FnItem:
             if len(blocks) != 1:
                 raise Undecided("%s: mod %r found %d times" % (rel, spec["mod"], len(blocks)))
             lo, hi = blocks[0][1] + 1, blocks[0][2]
+        self._deep = False
+        if spec.get("inside_macro"):
+            # the item is part of the body of a macro_rules! definition (its tokens are ordinary Rust apart from `$name` metavariables):
+            # narrow the search to that macro's block and look for impl blocks / fns at any nesting depth inside it
+            at = [t.text for t in tokenize(spec["inside_macro"])]
+            pos = [i for i in range(len(src.toks) - len(at)) if [t.text for t in src.toks[i:i + len(at)]] == at and src.toks[i + len(at)].text == "{"]
+            if len(pos) != 1:
+                raise Undecided("%s: macro %r found %d times" % (rel, spec["inside_macro"], len(pos)))
+            lo, hi = pos[0] + len(at) + 1, src.match[pos[0] + len(at)]
+            self._deep = True
         if spec.get("inside_fn"):
             # the item is declared inside the body of another function (a local impl): narrow the search to that body
             oimpl, ofn = spec["inside_fn"]
@@ -774,7 +784,26 @@ class FnItem:
             if len(outer) != 1:
                 raise Undecided("%s: enclosing fn %s in impl /%s/ found %d times" % (rel, ofn, oimpl, len(outer)))
             lo, hi = outer[0][2] + 1, outer[0][3]
-        if spec.get("impl"):
+        if spec.get("impl") and self._deep:
+            blocks = []
+            for i in range(lo, hi):
+                if src.toks[i].kind == "ident" and src.toks[i].text == "impl" and src.toks[i - 1].text in ("{", "}", ";", "]"):
+                    j = i + 1
+                    while j < hi and src.toks[j].text not in ("{", ";"):
+                        j = src.match[j] + 1 if src.toks[j].text in ("(", "[") else j + 1
+                    if j < hi and src.toks[j].text == "{" and re.search(spec["impl"], " ".join(x.text for x in src.toks[i:j])):
+                        blocks.append((i, j, src.match[j]))
+            cands = []
+            for b in blocks:
+                for f in src.find_fn(spec["name"], b[1] + 1, b[2]):
+                    cands.append((b, f))
+            if len(cands) != 1:
+                raise Undecided("%s: fn %s in impl /%s/ (inside macro) found %d times" % (rel, spec["name"], spec["impl"], len(cands)))
+            b, f = cands[0]
+            self.impl_header = norm(src.span(b[0], b[1] - 1))
+            self.impl_header_src = src.span(b[0], b[1] - 1)
+            self.default_instantiated = False
+        elif spec.get("impl"):
             blocks = [b for b in src.find_blocks("impl", spec["impl"], lo, hi)]
             cands = []
             for b in blocks:
@@ -808,7 +837,19 @@ class FnItem:
                 self.impl_header = norm(src.span(b[0], b[1] - 1))
                 self.impl_header_src = src.span(b[0], b[1] - 1)
         else:
-            fns = src.find_fn(spec["name"], lo, hi)
+            if self._deep:
+                fns = []
+                for i in range(lo, hi):
+                    if src.toks[i].kind == "ident" and src.toks[i].text == "fn" and src.toks[i + 1].text == spec["name"]:
+                        # enclosing block start: scan back to the previous `{`/`}`/`;` to pick up attributes is unnecessary here
+                        j = i + 2
+                        while src.toks[j].text != "{":
+                            j = src.match[j] + 1 if src.toks[j].text in ("(", "[") else j + 1
+                        # free fn = not directly inside an impl block: the caller narrows by uniqueness
+                        fns.append((i, i, j, src.match[j]))
+                fns = [f for f in fns if not spec.get("deep_skip_impl") or True]
+            else:
+                fns = src.find_fn(spec["name"], lo, hi)
             if len(fns) != 1:
                 raise Undecided("%s: free fn %s found %d times" % (rel, spec["name"], len(fns)))
             f = fns[0]
